@@ -182,7 +182,7 @@ impl Property for C01 {
 
     fn cases(tier: Tier) -> u32 {
         match tier {
-            Tier::Quick => 640,
+            Tier::Quick => 2560,
             Tier::Thorough => 100000,
         }
     }
